@@ -555,6 +555,50 @@ def p_C06(ctx):
     return ctx.finish("every file of the MC_Comp C06 family (1-3 systems with auxiliaries: single / multi service, cooling, zero-output steps, missing outputs, auxiliaries as the only electricity) is parsed (several hash orders) and evaluated; TLC checks P_C06 per system on (declared, parsed) and that the assigned auxiliaries are EPB electricity use of the balance; quick tier replays half of the 3-system family")
 
 
+def c07_cases(st, shape_stride, seed):
+    n = 0
+    for c in vlib.mc_cases(st):
+        shapes = c.pop("shapes")
+        n += 1
+        pc = dict(c)
+        pc["prepare_log"] = True
+        pc["prepare_only"] = True
+        pc["group"] = n
+        yield pc
+        if n % shape_stride == seed % shape_stride:
+            for i, sh in enumerate(shapes):
+                yield {"group": n, "fac": c["fac"], "src": {"comps": sh}, "kexp": [1, 2], "area": [1, 1], "lm": False,
+                       "runs": [{"tag": "shape%d" % i}]}
+
+
+def p_C07(ctx):
+    st = ctx.mc("MC_C07", "MC_C07_quick.cfg" if ctx.quick else "MC_C07_thorough.cfg", timeout=3000)
+    ctx.replay(c07_cases(st, 4 if ctx.quick else 1, ctx.seed), "subsets", "Trace_C07")
+    ctx.extra["factor_files"] = st["states"]
+    if ctx.quick:
+        st2 = ctx.mc("MC_C07", "MC_C07_dup.cfg")
+        ctx.replay(c07_cases(st2, 8, ctx.seed), "dup", "Trace_C07")
+    locs = []
+    for loc in ("PENINSULA", "BALEARES", "CANARIAS", "CEUTAMELILLA"):
+        for r1 in (None, [501, 601, 701]):
+            for r2 in (None, [502, 602, 702]):
+                fac = {"mode": "loc", "loc": loc}
+                if r1:
+                    fac["red1"] = r1
+                if r2:
+                    fac["red2"] = r2
+                locs.append({"fac": fac, "prepare_log": True, "prepare_only": True})
+    for f in ("factores_paso_PENINSULA_20140203.csv", "factores_paso_test.csv"):
+        locs.append({"fac": {"mode": "file", "path": REPO + "/test_data/" + f}, "prepare_log": True, "prepare_only": True})
+    ctx.replay(locs, "locations", "Trace_C07")
+    ctx.nontrivial = set(range(ctx.ncases))
+    ctx.extra["exhaustive"] = True
+    ctx.samples = [{"case": k, "fac": ctx.cases[k].get("fac")} for k in list(ctx.cases)[5:8]]
+    ctx.assumptions = ["factor values are three-decimal numbers, logged in thousandths and compared exactly", TRUST,
+                       "the universe of candidate lines is the one of MC_C07 (11 lines quick, 16 thorough); every line has a distinct value"]
+    return ctx.finish("ALL subsets of the universe of candidate factor lines x user RED1/RED2 given or not (plus a duplicated-key variant and the four locations) are prepared by the real library; TLC evaluates respect of user values, provenance of the export defaults, RED1/RED2 precedence, idempotence and rejection of unusable sets on (file, prepared list), and every building shape over the carriers of a prepared set must evaluate without missing factor; the look-ups recorded by the Find hook are compared with Balance!NeededKeys (DRIFT)")
+
+
 PROPS = {
     "C01": p_C01,
     "C02": p_C02,
@@ -562,6 +606,7 @@ PROPS = {
     "C04": p_C04,
     "C05": p_C05,
     "C06": p_C06,
+    "C07": p_C07,
     "C08": p_C08,
     "C09": p_C09,
     "C11": p_C11,
